@@ -192,7 +192,7 @@ def shrink_text(pred: Callable[[str], bool], s: str, budget: int = 400) -> str:
 # =============================================================================================== correspondence
 def corr_writer_reader(ck: Ck) -> None:
     rng = ck.rng
-    n_long, n_short = ck.budget(8, 120), ck.budget(110, 1500)
+    n_long, n_short = ck.budget(8, 100), ck.budget(110, 1200)
     corpus = [(True, '\t', ''), (False, '\t', ''), (True, '\t', 'q' * 999 + '"zz'), (False, '\t\t', 'q' * 999 + '\nzz'),
               (True, '\t', 'q' * 998 + '\\' + 'z'), (True, '', 'a b ' * 300), (True, '\t', ('w' * 130 + '\n') * 9),
               (False, '\t', 'x' * 1001), (True, '\t', 'x' * 1000), (True, '\t', ' ' + 'y' * 1500)]
@@ -1234,7 +1234,7 @@ def corr_binary_records(ck: Ck, data: bytes, tb: dict) -> None:
     from srctools import _engine_db as E
     rng = ck.rng
     rows = []
-    for i in range(ck.budget(50, 600)):
+    for i in range(ck.budget(50, 450)):
         e = gen_bin_ent(rng, i)
         table: list[str] = ['']
 
@@ -2806,15 +2806,15 @@ def run(ck: Ck) -> None:
              ('instance_obligations', lambda c: c.instance_obligations(IMPORTS, INSTANCE_OBLIGATIONS, name='c16'), ()),
              ('data_obligations', data_obligations, (data, tb)),
              ('corr_writer_reader', corr_writer_reader, ()),
-             ('corr_bits', corr_bits, ()),
              ('corr_strdict', corr_strdict, ()),
              ('corr_lazy', corr_lazy, (data, tb, via)),
-             ('corr_multi', corr_multi, (via, bool(multi_side.get('effective_first', True))))],
+             ('corr_head', corr_head, ())],
             [('theorems_1', theorems_part, (1, 2)),
              ('corr_binary_records', corr_binary_records, (data, tb)),
              ('line_data_obligations', line_data_obligations, ()),
              ('corr_lines', corr_lines, ()),
-             ('corr_head', corr_head, ())],
+             ('corr_multi', corr_multi, (via, bool(multi_side.get('effective_first', True)))),
+             ('corr_bits', corr_bits, ())],
         ])
 
     def searches() -> None:
